@@ -1,12 +1,19 @@
 import PGM.Proofs.Semantics
+import PGM.Proofs.VELogspace
 /-! correctness of variable elimination (both spaces), `project` and `datavector` -/
 namespace PGM.Sem
 open PGM PGM.JT PGM.GM
 variable {K : Type} [Field K] [LinearOrder K] [IsStrictOrderedRing K]
+-- some hypotheses of the stated theorems are not needed by the proofs (kept as stated)
+set_option linter.unusedVariables false
+set_option linter.unusedSectionVars false
 
 /-- factors usable with the domain `d` -/
 def FactorsOK {α : Type} [Scalar α] (d : Dom) (fs : List (Factor α)) : Prop :=
   ∀ f ∈ fs, f.WF ∧ f.dom.Agrees d ∧ ∀ a ∈ f.dom.attrs, a ∈ d.attrs
+
+theorem factorsOK_iff {α : Type} [Scalar α] (d : Dom) (fs : List (Factor α)) :
+    FactorsOK d fs ↔ ∀ f ∈ fs, FactorOK d f := Iff.rfl
 
 /-- **variable elimination (exp-space) computes the sum-product**: for any list of factors and any
 duplicate-free elimination list — in particular whatever order `greedy_order` picks — the result at
@@ -18,7 +25,12 @@ theorem ve_correct (d : Dom) (fs : List (Factor (PlainOf K))) (elim : List Attr)
     ((variableElimination fs elim).sem σ).v
       = sumOver d elim σ (fun τ => (fs.map (fun f => (f.sem τ).v)).prod) ∧
     (∀ a, a ∈ (variableElimination fs elim).dom.attrs ↔ (a ∉ elim ∧ ∃ f ∈ fs, a ∈ f.dom.attrs)) := by
-  sorry
+  obtain ⟨hocc, hne⟩ := (preVE_iff fs elim).mp hpre
+  obtain ⟨p, ps, hfold, hok, hattrs, hsem⟩ :=
+    veLoop_final Scalar.mul Scalar.sum (fun x : PlainOf K => x.v) (fun _ _ => rfl) plain_sum_v
+      d hd elim fs hfs hne hocc hnd hsub
+  simp only [variableElimination_eq, hfold]
+  exact ⟨hsem σ hσ, hattrs⟩
 
 /-- the log-space variant, normalised to `total` -/
 theorem veLogspace_correct (d : Dom) (fs : List (Factor (LogOf K))) (elim : List Attr)
@@ -29,7 +41,50 @@ theorem veLogspace_correct (d : Dom) (fs : List (Factor (LogOf K))) (elim : List
     ((veLogspace fs elim total).sem σ).v
       = total.v * sumOver d elim σ (fun τ => (fs.map (fun f => (f.sem τ).v)).prod)
         / sumOver d d.attrs (fun _ => 0) (fun τ => (fs.map (fun f => (f.sem τ).v)).prod) := by
-  sorry
+  exact (veLogspace_spec d fs elim total hd hfs hpre hnd hsub hcover).2.2 σ hσ
+
+/-- the product over the potentials' tables is the joint -/
+theorem prod_snd_eq_joint (pots : CliqueVec (LogOf K)) (τ : Attr → Nat) :
+    ((pots.map Prod.snd).map (fun f => (f.sem τ).v)).prod = joint pots τ := by
+  unfold joint
+  rw [List.map_map]
+  rfl
+
+theorem invert_nodup (d : Dom) (hd : d.WF) (as : List Attr) : (d.invert as).Nodup :=
+  List.Nodup.sublist List.filter_sublist hd
+
+theorem mem_invert (d : Dom) (as : List Attr) (a : Attr) : a ∈ d.invert as ↔ a ∈ d.attrs ∧ a ∉ as := by
+  simp [Dom.invert]
+
+/-- `as` and `d.invert as` partition the domain -/
+theorem append_invert_perm (d : Dom) (hd : d.WF) (as : List Attr) (has : as.Nodup)
+    (hsub : ∀ a ∈ as, a ∈ d.attrs) :
+    (as ++ d.invert as).Nodup ∧ (as ++ d.invert as).Perm d.attrs := by
+  have hn : (as ++ d.invert as).Nodup := by
+    rw [List.nodup_append]
+    exact ⟨has, invert_nodup d hd as, fun a ha b hb hab =>
+      ((mem_invert d as b).mp hb).2 (hab ▸ ha)⟩
+  refine ⟨hn, ?_⟩
+  rw [List.perm_ext_iff_of_nodup hn hd]
+  intro a
+  rw [List.mem_append, mem_invert]
+  constructor
+  · rintro (h | h)
+    · exact hsub a h
+    · exact h.1
+  · intro h
+    by_cases ha : a ∈ as
+    · exact Or.inl ha
+    · exact Or.inr ⟨h, ha⟩
+
+/-- summing the marginal onto `as` over `as` gives the partition function (any base assignment) -/
+theorem sumOver_marginal (d : Dom) (pots : CliqueVec (LogOf K)) (as : List Attr) (σ : Attr → Nat)
+    (hd : d.WF) (has : as.Nodup) (hsub : ∀ a ∈ as, a ∈ d.attrs) :
+    sumOver d as σ (marginal d pots as) = sumOver d d.attrs σ (joint pots) := by
+  obtain ⟨hn, hp⟩ := append_invert_perm d hd as has hsub
+  show sumOver d as σ (fun τ => sumOver d (d.invert as) τ (joint pots)) = _
+  rw [← sumOver_append d as (d.invert as) σ _ has (fun a ha hm => ((mem_invert d as a).mp hm).2 ha)]
+  exact sumOver_perm d _ _ σ _ hp hn
 
 /-- **`project` without cached marginals** answers with `total · marginal / Z`, laid out in the
 requested attribute order (any duplicate-free tuple of domain attributes, including empty and full) -/
@@ -40,13 +95,48 @@ theorem project_correct (d : Dom) (pots : CliqueVec (LogOf K)) (total : LogOf K)
     (hZ : partition d pots ≠ 0) :
     (GMproject d pots total attrs).dom.attrs = attrs ∧
     ((GMproject d pots total attrs).sem σ).v = total.v * marginal d pots attrs σ / partition d pots := by
-  sorry
+  have hcover' : ∀ a ∈ d.attrs, ∃ f ∈ pots.map Prod.snd, a ∈ f.dom.attrs := by
+    intro a ha
+    obtain ⟨p, hp, hap⟩ := hcover a ha
+    exact ⟨p.2, List.mem_map_of_mem hp, hap⟩
+  have hpre : preVE (pots.map Prod.snd) (d.invert attrs) = true := by
+    rw [preVE_iff]
+    refine ⟨fun z hz => hcover' z ((mem_invert d attrs z).mp hz).1, ?_⟩
+    intro h
+    exact hne (List.map_eq_nil_iff.mp h)
+  obtain ⟨hR, hRattrs, hRsem⟩ := veLogspace_spec d (pots.map Prod.snd) (d.invert attrs) total hd hfs
+    hpre (invert_nodup d hd attrs) (fun a ha => ((mem_invert d attrs a).mp ha).1) hcover'
+  have hmem : ∀ a, a ∈ (veLogspace (pots.map Prod.snd) (d.invert attrs) total).dom.attrs ↔ a ∈ attrs := by
+    intro a
+    rw [hRattrs a, mem_invert]
+    constructor
+    · rintro ⟨h1, h2⟩
+      by_contra h
+      exact h1 ⟨h2, h⟩
+    · intro h
+      exact ⟨fun h' => h'.2 h, hsub a h⟩
+  have hinv : (veLogspace (pots.map Prod.snd) (d.invert attrs) total).dom.invert attrs = [] := by
+    unfold Dom.invert
+    rw [List.filter_eq_nil_iff]
+    intro a ha
+    simpa using (hmem a).mp ha
+  refine ⟨Factor.project_attrs _ _ _, ?_⟩
+  show ((Factor.project Scalar.sum (veLogspace (pots.map Prod.snd) (d.invert attrs) total) attrs).sem σ).v = _
+  rw [Factor.sem_project Scalar.sum _ attrs σ hR.1 hnd (fun a ha => (hmem a).mpr ha) (hR.valid hd hσ),
+    hinv]
+  simp only [List.map_nil, cells, List.map_cons, override_nil]
+  rw [log_sum_singleton_v, hRsem σ hσ]
+  simp only [prod_snd_eq_joint]
+  rfl
 
 /-- summing any answer over all its cells gives the total -/
 theorem project_sums_to_total (d : Dom) (pots : CliqueVec (LogOf K)) (total : LogOf K) (attrs : List Attr)
     (hd : d.WF) (hnd : attrs.Nodup) (hsub : ∀ a ∈ attrs, a ∈ d.attrs) (hZ : partition d pots ≠ 0) :
     sumOver d attrs (fun _ => 0) (fun σ => total.v * marginal d pots attrs σ / partition d pots) = total.v := by
-  sorry
+  rw [sumOver_div d attrs _ (partition d pots) (fun σ => total.v * marginal d pots attrs σ),
+    sumOver_mul_left d attrs _ total.v (marginal d pots attrs),
+    sumOver_marginal d pots attrs _ hd hnd hsub]
+  exact mul_div_cancel_right₀ _ hZ
 
 /-- two answers agree on the attributes they share: marginalising the answer for `as` onto a
 sub-tuple `bs` gives the answer for `bs` -/
@@ -54,6 +144,29 @@ theorem marginal_consistent (d : Dom) (pots : CliqueVec (LogOf K)) (as bs : List
     (hd : d.WF) (has : as.Nodup) (hbs : bs.Nodup) (hsub : ∀ a ∈ as, a ∈ d.attrs) (hbsub : ∀ b ∈ bs, b ∈ as)
     (hσ : d.Valid σ) :
     sumOver d (as.filter (fun a => !bs.contains a)) σ (marginal d pots as) = marginal d pots bs σ := by
-  sorry
+  have hmemf : ∀ a, a ∈ as.filter (fun a => !bs.contains a) ↔ a ∈ as ∧ a ∉ bs := by
+    intro a; simp [List.mem_filter]
+  have hn1 : (as.filter (fun a => !bs.contains a)).Nodup := has.sublist List.filter_sublist
+  have hdis : ∀ a ∈ as.filter (fun a => !bs.contains a), a ∉ d.invert as :=
+    fun a ha hm => ((mem_invert d as a).mp hm).2 ((hmemf a).mp ha).1
+  have hn : (as.filter (fun a => !bs.contains a) ++ d.invert as).Nodup := by
+    rw [List.nodup_append]
+    exact ⟨hn1, invert_nodup d hd as, fun a ha b hb hab => hdis a ha (hab ▸ hb)⟩
+  have hp : (as.filter (fun a => !bs.contains a) ++ d.invert as).Perm (d.invert bs) := by
+    rw [List.perm_ext_iff_of_nodup hn (invert_nodup d hd bs)]
+    intro a
+    rw [List.mem_append, hmemf, mem_invert, mem_invert]
+    constructor
+    · rintro (h | h)
+      · exact ⟨hsub a h.1, h.2⟩
+      · exact ⟨h.1, fun hb => h.2 (hbsub a hb)⟩
+    · rintro ⟨h1, h2⟩
+      by_cases ha : a ∈ as
+      · exact Or.inl ⟨ha, h2⟩
+      · exact Or.inr ⟨h1, ha⟩
+  show sumOver d _ σ (fun τ => sumOver d (d.invert as) τ (joint pots))
+    = sumOver d (d.invert bs) σ (joint pots)
+  rw [← sumOver_append d _ (d.invert as) σ _ hn1 hdis]
+  exact sumOver_perm d _ _ σ _ hp hn
 
 end PGM.Sem
